@@ -7,3 +7,5 @@ open BV
 #print axioms C04_single_span
 #print axioms C04_content_identity
 #print axioms C04_other_files
+#print axioms tie_hasOverlap
+#print axioms tie_detectLineSep
